@@ -26,7 +26,7 @@ Proof. exact l_transcript_line. Qed.
 Print Assumptions C03_transcript_line.
 
 Theorem C03_gene_line : forall g f gn,
-  first_val (g_tkey g) f = None -> dget (g_tkey g) (r_attrs f) <> Some [] \/ True ->
+  first_val (g_tkey g) f = None ->
   first_val (g_gkey g) f = Some gn -> gtf_relations g f gn = [].
 Proof. exact l_gene_line. Qed.
 Print Assumptions C03_gene_line.
@@ -159,6 +159,11 @@ Theorem C03_import_end_to_end : forall call g strat force fs,
        exists gn, (exists f, In f fs /\ first_val (g_tkey g) f = Some t /\ first_val (g_gkey g) f = Some gn) /\
                   find_id t (s_rows st') = Some (set_bin (set_id t (t_row g t gn x)))) /\
     (forall gn x, expected_extent g (g_gkey g) gn fs = Some x ->
-       find_id gn (s_rows st') = Some (set_bin (set_id gn (g_row g gn x)))).
+       find_id gn (s_rows st') = Some (set_bin (set_id gn (g_row g gn x)))) /\
+    (* the three-level hierarchy, exactly: every line a level-1 child of its transcript and a level-2 child of its gene,
+       each transcript a level-1 child of its gene - and no other relation *)
+    (forall x, In x (s_rels st') <->
+       exists p t gn, In p (assign fs []) /\ first_val (g_tkey g) (fst p) = Some t /\ first_val (g_gkey g) (fst p) = Some gn /\
+                      (x = mkRel t (snd p) 1 \/ x = mkRel gn (snd p) 2 \/ x = mkRel gn t 1)).
 Proof. exact l_import_gtf_end_to_end. Qed.
 Print Assumptions C03_import_end_to_end.
